@@ -25,7 +25,7 @@
    the theorems of section 3 are about the message-set decoder, the primitive readers and counted loops. *)
 From Coq Require Import Sorted.
 From AV Require Import Base.Util Model.Prim Model.Crc Model.MsgSet Model.FetchGrow Model.Responses
-     Proofs.PrimFacts Proofs.CrcBurst Proofs.DecodeTotal Proofs.Truncation Proofs.FetchGrowFacts Proofs.C12Resp.
+     Proofs.PrimFacts Proofs.CrcBurst Proofs.DecodeTotal Proofs.Truncation Proofs.C12Wrappers Proofs.FetchGrowFacts Proofs.C12Resp.
 
 (* ================================================================== 1. CRC-32 error detection *)
 
@@ -147,6 +147,57 @@ Theorem C12_complete_set : forall d orc clock k msgs offset incr magic bs,
   dec_set (S d) orc bs = (expected clock k msgs offset incr, None).
 Proof. exact complete_set. Qed.
 Print Assumptions C12_complete_set.
+
+(* ================================================================== 2b. the same for sets that contain compressed wrappers
+   (or anything else that decodes).  [set_of rec orc es bs]: bs is the concatenation of the entries es, each given by its
+   offset, its bytes and the (offset, message) pairs [e_ys] to which those bytes decode cleanly - a plain message, a
+   gzip/snappy wrapper around an inner set (through the decompression oracle), a wrapper of wrappers.  [gcut read cut es]
+   walks the entries wholly inside the first cut bytes; [gwhole] lists them; [yields] concatenates their e_ys. *)
+
+(* an encoded message - plain or wrapper - decodes to what its payload says (the CRC, format and length checks pass) *)
+Theorem C12_message_payload : forall rec orc now m bs off,
+  encode_message now m = Ok bs -> obytes_ok (m_key m) = true -> obytes_ok (m_value m) = true ->
+  dec_message rec orc (Some bs) off
+  = dec_payload rec orc (m_magic m) (m_attr m) off (m_key m) (m_value m) (m_ts (wire_view now m)).
+Proof. exact dec_message_payload. Qed.
+Print Assumptions C12_message_payload.
+
+(* a gzip wrapper (either format) around an encoded set of plain messages is an entry that decodes: to the inner
+   messages as stored (format 0) or relocated to end at the wrapper's offset (format 1) - for EVERY oracle that returns
+   the inner set for this payload (nothing else is assumed about decompression) *)
+Theorem C12_wrapper_decodes : forall d orc now w bs off z clock k msgs o incr imagic inner,
+  encode_message now w = Ok bs ->
+  m_value w = Some z -> obytes_ok (m_key w) = true -> bytes_ok z = true ->
+  Z.land (m_attr w) ATTRIBUTE_CODEC_MASK = CODEC_GZIP ->
+  gz_dec orc z = Ok inner ->
+  forallb plain msgs = true -> encode_message_set_from clock k msgs o incr imagic = Ok inner ->
+  dec_message (dec_set (S d) orc) orc (Some bs) off
+  = ((if (m_magic w =? 0) then expected clock k msgs o incr else absolute off (expected clock k msgs o incr)), None).
+Proof. exact wrapper_decodes. Qed.
+Print Assumptions C12_wrapper_decodes.
+
+(* every cut point of a set whose entries decode: exactly the yields of the entries wholly before the cut - a cut inside a
+   wrapper, its compressed payload included, delivers nothing of that wrapper - then a silent stop, or
+   ConsumerFetchSizeTooSmall, which happens only when nothing at all was yielded *)
+Theorem C12_truncation_general : forall d orc es bs cut,
+  set_of (dec_set d orc) orc es bs -> (cut <= length bs)%nat ->
+  dec_set (S d) orc (take cut bs) = gcut false cut es /\
+  fst (gcut false cut es) = yields (gwhole cut es) /\
+  (snd (gcut false cut es) = None \/
+   (snd (gcut false cut es) = Some FetchTooSmall /\ yields (gwhole cut es) = [])).
+Proof. exact gen_truncation. Qed.
+Print Assumptions C12_truncation_general.
+
+(* a damaged entry (stored CRC does not match: by C12_flip_detected / C12_crc_field_detected any burst in the
+   checksummed bytes of a message - for a wrapper that is its compressed payload - or any change of its CRC field) after
+   entries that decode: their yields are delivered, then ChecksumError; nothing of the damaged entry or behind it *)
+Theorem C12_corrupt_in_set_general : forall d orc es bs off' bad h' rest,
+  set_of (dec_set d orc) orc es bs ->
+  pack_list [(Fq, off'); (Fi, len bad)] = Ok h' ->
+  (6 <= length bad)%nat -> dec_be_unsigned (take 4 bad) <> crc32 (drop 4 bad) ->
+  dec_set (S d) orc (bs ++ h' ++ bad ++ rest) = (yields es, Some Checksum).
+Proof. exact gen_corrupt_in_set. Qed.
+Print Assumptions C12_corrupt_in_set_general.
 
 (* ================================================================== 3. totality with linear cost *)
 
@@ -272,14 +323,14 @@ Print Assumptions C12_resp_never_out_of_fuel.
 (* an answer that ends in ConsumerFetchSizeTooSmall - with or without messages before it: what was collected is handed to
    the processor, and then the offset right after it (the SAME offset when nothing was collected) is requested again with
    a strictly larger buffer, never above the configured maximum - or, exactly when the buffer already is at the maximum,
-   the start Deferred fails and nothing is requested *)
+   the start Deferred fails, nothing is requested and nothing more is handed over (consumer.py:1015-1021) *)
 Theorem C12_consumer_grows : forall mb s offs s' outs,
   g_failed s = false -> 0 < g_buf s -> gstep mb s (Reply offs TooSmallTail) = (s', outs) ->
   let dl := fst (accept (g_off s) offs) in let fo := snd (accept (g_off s) offs) in
   (dl = [] -> fo = g_off s) /\
   ((exists b, outs = deliver dl ++ [Fetch fo b] /\ g_buf s < b /\ (forall m, mb = Some m -> b <= m)
               /\ s' = mkG fo b false)
-   \/ (outs = StartFailed :: deliver dl /\ (exists m, mb = Some m /\ m <= g_buf s) /\ s' = mkG fo (g_buf s) true)).
+   \/ (outs = [StartFailed] /\ (exists m, mb = Some m /\ m <= g_buf s) /\ s' = mkG (g_off s) (g_buf s) true)).
 Proof. exact toosmall_step. Qed.
 Print Assumptions C12_consumer_grows.
 
@@ -398,11 +449,11 @@ Example hostile_count :
 Proof. vm_compute. auto. Qed.
 
 (* consumer: 100 bytes, maximum 30000, log = offsets 7 8 9 12 13.  Three useless answers (100 -> 1600 -> 25600 -> 30000),
-   then 7,8 arrive followed by a wrapper whose inner set is cut (TooSmallTail, at the maximum: start fails AFTER which 7,8
-   are still handed over - as the code does); a second run shows a damaged answer after 7,8 and the refetch at 9 *)
+   then 7,8 arrive followed by a wrapper whose inner set is cut (TooSmallTail) with the buffer at the maximum: the start
+   Deferred fails and 7,8 are not handed over any more; a second run shows a damaged answer after 7,8 and the refetch at 9 *)
 Example grow_run :
   snd (grun (Some 30000) (mkG 7 100 false) [TooSmall; TooSmall; TooSmall; Reply [7; 8] TooSmallTail; TooSmall])
-  = [Fetch 7 1600; Fetch 7 25600; Fetch 7 30000; StartFailed; Deliver [7; 8]].
+  = [Fetch 7 1600; Fetch 7 25600; Fetch 7 30000; StartFailed].
 Proof. vm_compute. reflexivity. Qed.
 Example grow_run_log :
   let L := [7; 8; 9; 12; 13] in
@@ -431,3 +482,24 @@ Example hostile_subscriptions :
   decode_join_group_protocol_metadata [0; 0; 0; 0; 0; 1; 0; 1; 97; 255; 255; 255; 255]
   = Ok (mk_protocol_metadata 0 [[97]] None).
 Proof. vm_compute. auto. Qed.
+
+(* wrappers: the gzip wrapper (marker oracle) around set3, inside an outer set between two plain messages.
+   Hypotheses of C12_wrapper_decodes hold; cutting anywhere inside the wrapper (entry 2 = bytes 30..148) delivers only the
+   first message; a flipped bit in the compressed payload is a ChecksumError after the first message *)
+Definition wmsg : message := mkMessage 0 1 None (Some (0x1F :: set3)) None.
+Definition wbytes : list Z := match encode_message 0 wmsg with Ok b => b | Err _ => [] end.
+Definition wset : list Z := match encode_message_set_from clk 0 [m0; wmsg; m0] 5 1 0 with Ok b => b | Err _ => [] end.
+Example wrapper_hyps :
+  encode_message 0 wmsg = Ok wbytes /\ m_value wmsg = Some (0x1F :: set3) /\ bytes_ok (0x1F :: set3) = true /\
+  Z.land (m_attr wmsg) ATTRIBUTE_CODEC_MASK = CODEC_GZIP /\ gz_dec marker_oracle (0x1F :: set3) = Ok set3 /\
+  length wset = 179%nat.
+Proof. vm_compute. repeat split. Qed.
+Example wrapper_cuts :
+  map (fun cut => let r := dec_set 2 marker_oracle (take cut wset) in (map fst (fst r), snd r)) [0; 29; 30; 31; 100; 148; 149; 179]%nat
+  = [([], None); ([], Some FetchTooSmall); ([5], None); ([5], None); ([5], None); ([5], None);
+     ([5; 100; 101; 102], None); ([5; 100; 101; 102; 7], None)].
+Proof. vm_compute. reflexivity. Qed.
+Example wrapper_flip :
+  let damaged := take 80 wset ++ flip_bit (drop 80 wset) 3 in
+  (fun r => (map fst (fst r), snd r)) (dec_set 2 marker_oracle damaged) = ([5], Some Checksum).
+Proof. vm_compute. reflexivity. Qed.
